@@ -47,7 +47,7 @@ CHECKS = {
          "runtime monitoring: write/read round-trip oracle over the reader's image", "DESIGN.md 3 C05"),
  "C11": ("fault_enumeration",
          "Fault enumeration on the real LEF reader: every prefix of each seed text (and mid-character cuts), every single-token fault (delete, duplicate, swap, keyword/number/';'/unterminated-string replacement), non-ASCII insertions into names, numbers, strings, comments and line starts, CRLF, noise and size scaling; each execution under a panic guard and hook-counted step budgets (characters, parser steps, error-report scan); accepted inputs must survive to_string -> open without a crash.",
-         "'Time proportional to length' decided as bounded progress on hook counters; wall-clock is a watchdog only. Input reaches the reader through a tmpfs file (only public entry point).",
+         "'Time proportional to length' decided as bounded progress on hook counters plus an instruction-count leg (valgrind cachegrind, both tiers: executed instructions for inputs of doubling size must grow linearly); wall-clock is a watchdog only. Input reaches the reader through a tmpfs file (only public entry point).",
          "runtime monitoring: fault injection + panic/step-budget monitors", "DESIGN.md 3 C11"),
  "C16": ("exploration",
          "LefLibrary values with integer-raw-unit coordinates (x != y) spelled with 0..6 decimals are imported with LefImporter::import; cell count, names, outline, per-pin and per-layer shapes (by layer name, in LEF order) and every coordinate are compared with value x units-per-micron of the returned library; a coordinate with a fraction of a raw unit must be rejected.",
@@ -71,8 +71,8 @@ CHECKS = {
          "Only BNF-ordered streams the reference encoder can produce are claimed; trusted base as C02.",
          "runtime monitoring: reference-encoder differential oracle on the reader", "DESIGN.md 3 C03"),
  "C10": ("fault_enumeration",
-         "Fault enumeration on the real reader: every truncation point of each seed stream and, for every record, every listed single-record fault (length, payload, record type, data type, delete/duplicate/swap/splice), plus byte flips, noise and size scaling. Each execution runs under a panic guard and a logical step budget counted by hooks (records read, parser steps); strict prefixes must be rejected; every accepted input must survive write->read unchanged.",
-         "'Time proportional to length' is decided as bounded progress on hook-counted steps; wall-clock only as watchdog (inconclusive). Memory-safety clause: gds21 has no unsafe; sanitizer legs are secondary.",
+         "Fault enumeration on the real reader: every truncation point of each seed stream and, for every record, every listed single-record fault (length, payload, record type, data type, delete/duplicate/swap/splice), plus byte flips, noise and size scaling. Each execution runs under a panic guard and a logical step budget counted by hooks (records read, parser steps); strict prefixes must be rejected; every accepted input must survive write->read unchanged. An instruction-count leg (valgrind cachegrind, both tiers) bounds the work per step: executed instructions for inputs of doubling size must grow linearly.",
+         "'Time proportional to length' is decided as bounded progress on hook-counted steps plus the instruction-count leg; wall-clock only as watchdog (inconclusive). Memory-safety clause: gds21 has no unsafe; sanitizer legs are secondary.",
          "runtime monitoring: fault injection + panic/step-budget monitors + closure oracle", "DESIGN.md 3 C10"),
  "C12": ("exploration",
          "All 14^d right-angle placement words for d<=4 (exhaustive) with integer offsets, applied to a full point grid, through Transform::from_instance/cascade/Point::transform and through Layout::flatten of the nested hierarchy, compared with exact integer maps; large coordinates and general angles by seeded sampling against a range-reduced reference.",
